@@ -234,7 +234,7 @@ def file_state(cs):
 
 LOADER_REJECTS = ("kind_cut", "value_cut", "garbage")
 
-DEFAULTISH = (b"", b"\x00", b"\x01", b"\xff" * 8)
+DEFAULTISH = (b"", b"\x00", b"\x01", b"\xff" * 8, b"\x00" * 8)      # the last one: an unsigned long 0 (e.g. CKK_RSA, which P11Object::init gives a private key whose stored CKA_KEY_TYPE is missing)
 def classify_incomplete(ch, a, a_new, a_old):
     """every differing attribute is either defaulted/missing (incomplete object) or carries a value that is neither old, new nor a default (corrupt)"""
     for t_ in ch:
